@@ -1877,6 +1877,24 @@ func ruleRedisReadsMaster(c *Ctx) {
 // ruleDialerNoAbsoluteDeadline: the upstream transport's dialer carries no
 // absolute deadline (it would be fixed when the upstream is built).
 func ruleDialerNoAbsoluteDeadline(c *Ctx) {
+	n, bad := dialerDeadlines(c.P)
+	if n == 0 {
+		c.undecided("dialer-no-absolute-deadline", "upstream", "-", "no net.Dialer is configured")
+		return
+	}
+	if fx := c.fixture(); fx == nil {
+		c.undecided("dialer-no-absolute-deadline", "upstream", "-", "positive-control fixture could not be loaded")
+		return
+	} else if _, fb := dialerDeadlines(fx); len(fb) == 0 {
+		c.undecided("dialer-no-absolute-deadline", "upstream", "-", "the rule does not fire on its positive control (checker/fixture/fixturebad.DialWithDeadline)")
+		return
+	}
+	sort.Strings(bad)
+	c.check(len(bad) == 0, "dialer-no-absolute-deadline", "newTransport", "upstream/upstream.go", fmt.Sprintf("%d net.Dialer options set, only relative ones (Timeout, KeepAlive); positive control fires", n), strings.Join(uniq(bad), " || "), n+1)
+}
+
+func dialerDeadlines(p *Program) (int, []string) {
+	c := struct{ P *Program }{p}
 	n := 0
 	bad := []string{}
 	for _, f := range c.P.allFuncs {
@@ -1907,12 +1925,7 @@ func ruleDialerNoAbsoluteDeadline(c *Ctx) {
 			}
 		}
 	}
-	if n == 0 {
-		c.undecided("dialer-no-absolute-deadline", "upstream", "-", "no net.Dialer is configured")
-		return
-	}
-	sort.Strings(bad)
-	c.check(len(bad) == 0, "dialer-no-absolute-deadline", "newTransport", "upstream/upstream.go", fmt.Sprintf("%d net.Dialer options set, only relative ones (Timeout, KeepAlive)", n), strings.Join(uniq(bad), " || "), n)
+	return n, bad
 }
 
 // ruleResponseNeverOverwritten: a response object, once built, is never
